@@ -100,8 +100,9 @@ def doc_ids(doc):
     return {str(r["id"]) for r in (doc.get("results") or []) if isinstance(r, dict) and "id" in r and "file_path" in r}
 
 
-def with_decoys(doc, decoys, tool, rel):
-    """Add entries that must be ignored."""
+def with_decoys(doc, decoys, tool, rel, unreported=()):
+    """Add entries that must be ignored.  `unreported`: documents of the sites that are NOT reported in this run - a
+    closed-status decoy is a finding of such a site (a closed copy of a reported finding would change nothing)."""
     doc = copy.deepcopy(doc) if doc else None
     fmt = progspace.doc_format(doc) if doc else {"sonar": "sonar", "semgrep": "sarif", "defectdojo": "defectdojo"}[tool]
     if doc is None:
@@ -109,22 +110,33 @@ def with_decoys(doc, decoys, tool, rel):
     for d in decoys:
         if fmt == "sonar":
             base = {"rule": "python:S9999", "status": "OPEN", "component": rel, "key": "decoy", "textRange": {"startLine": 1, "endLine": 1, "startOffset": 0, "endOffset": 3}}
-            real = (doc.get("issues") or [None])[0]
+            # the decoy goes into the list its model comes from: issues, or hotspots for hotspot-only documents
+            lst = "issues" if doc.get("issues") else ("hotspots" if doc.get("hotspots") else "issues")
+            real = (doc.get(lst) or [None])[0]
+            doc.setdefault(lst, [])
             if d == "foreign-rule" and real:
                 e = copy.deepcopy(real)
                 e["rule"] = "python:S9999"
                 e.pop("ruleKey", None)
-                doc["issues"].append(e)
+                doc[lst].append(e)
             elif d == "other-file" and real:
                 e = copy.deepcopy(real)
                 e["component"] = "src/elsewhere.py"
-                doc["issues"].append(e)
-            elif d.startswith("closed") and real:
-                e = copy.deepcopy(real)
-                e["status"] = {"closed": "RESOLVED", "closed-reviewed": "REVIEWED", "closed-fixed": "FIXED", "closed-closed": "CLOSED"}[d]
-                doc["issues"].append(e)
+                doc[lst].append(e)
+            elif d.startswith("closed") and (real or unreported):
+                status = {"closed": "RESOLVED", "closed-reviewed": "REVIEWED", "closed-fixed": "FIXED", "closed-closed": "CLOSED"}[d]
+                models = []
+                for u in unreported[:1]:
+                    for k in ("issues", "hotspots"):
+                        models += [(k, e) for e in (u.get(k) or [])]
+                if not models:
+                    models = [(lst, real)]
+                for k, m in models:
+                    e = copy.deepcopy(m)
+                    e["status"] = status
+                    doc.setdefault(k, []).append(e)
             elif d == "foreign-rule":
-                doc["issues"].append(base)
+                doc[lst].append(base)
         elif fmt == "sarif":
             run = doc["runs"][0]
             real = (run.get("results") or [None])[0]
@@ -173,7 +185,8 @@ def render_with_subset(program, subset, decoys):
             docs.append(d)
     tool = program["codemod"].split(":")[0]
     merged = progspace.merge_docs(docs)
-    merged = with_decoys(merged, decoys, tool, "code.py") if (decoys or merged is None) else merged
+    unreported = [d for idx, d in zip(kept, full["docs"]) if idx not in subset and progspace.doc_format(d) == "sonar"]
+    merged = with_decoys(merged, decoys, tool, "code.py", unreported) if (decoys or merged is None) else merged
     rd = dict(full)
     rd["results"] = merged
     return rd, full
@@ -194,6 +207,8 @@ def sast_case(draw, cid, fixtures):
         "subset_mask": draw(st.lists(st.booleans(), min_size=4, max_size=4)),
         "decoys": draw(st.lists(st.sampled_from(["foreign-rule", "other-file", "closed", "closed-reviewed", "closed-fixed", "closed-closed", "foreign-tool"]), max_size=2, unique=True)),
         "empty_doc": draw(st.integers(0, 9)) == 0,
+        # the reported findings arrive in two result files of the same tool (a paginated export)
+        "split": draw(st.booleans()),
     }
 
 
@@ -270,11 +285,14 @@ def eval_case(case, stats=None, all_subsets=False):
         if case.get("empty_doc") and not all_subsets:
             S, decoys = set(), []
         rd_s, _ = render_with_subset(program, S, decoys)
+        split = bool(case.get("split")) and rd_s.get("results") and progspace.doc_format(rd_s["results"]) != "sarif"
+        if split:
+            rd_s["split_results"] = 2
         with runner.scratch("c06s") as rs:
             obs_s = run_doc(cid, rd_s, Path(rs))
         key = [cid, core.sha(f.before), sorted(S), decoys]
         nontriv = (0 < len(S) < len(acted)) or bool(decoys)
-        st_.case(key, nontriv, labels + [f"reported={len(S)}/{len(acted)}"] + ["decoy:" + d for d in decoys] + (["empty-document"] if not S and not decoys else []),
+        st_.case(key + (["split"] if split else []), nontriv, labels + [f"reported={len(S)}/{len(acted)}"] + (["two-result-files"] if split else []) + ["decoy:" + d for d in decoys] + (["empty-document"] if not S and not decoys else []),
                  sample={"codemod": cid, "sites": len(acted), "reported": sorted(S), "decoys": decoys, "document": rd_s["results"], "source": before[:500]})
         det = {"codemod": cid, "reported_parts": sorted(S), "acted_in_calibration": acted, "decoys": decoys, "part_ranges": ranges, "before": before, "document": rd_s["results"]}
         if obs_s.res.exit != 0 or obs_s.res.report is None:
@@ -288,7 +306,7 @@ def eval_case(case, stats=None, all_subsets=False):
         outside = sorted(l for l in ch_s if part_of(l, ranges) is None)
         extra = sorted(got_parts - S)
         missing = sorted((S & set(acted)) - got_parts)
-        vf = feats + ["decoy:" + d for d in decoys]
+        vf = feats + ["decoy:" + d for d in decoys] + (["two-result-files"] if split else [])
         if extra:
             st_.violation(cid, "site-without-finding-rewritten", {"case": case}, json.dumps({"unreported_parts_rewritten": extra, **det})[:7000], features=vf)
         if missing:
